@@ -11,6 +11,8 @@ monitor of props/C14.py on the real entry points with a time limit.
 import Mistral.Model.Lang
 import Mistral.Lemmas.Lang
 import Mistral.Gen.LangTables
+import Mistral.Lemmas.ReverseValid
+import Mistral.Props.C04Rev
 
 namespace Mistral.Props.C14
 open Mistral.Lang
@@ -200,10 +202,36 @@ structure WellFormed (w : WfG) : Prop where
   joins : w.reverse = false → ∀ t ∈ w.tasks, JoinHasInbound w t
   /-- reverse: every requirement (own or task-defaults, except itself) is a task -/
   requires : w.reverse = true → ∀ t ∈ w.tasks, ∀ n ∈ taskRequires w t, taskExists w n = true
+  /-- reverse: `requires` (own ∪ task-defaults, by name, as a run sees it) has no cycle: a ranking of
+      the names puts every requirement below its task (`_check_requires_cycles`, repo fix fd108744) -/
+  acyclic : w.reverse = true → Mistral.Reverse.AcyclicN (toSpec w)
+
+/-- requirements of a name in the run model's view are the requirements of a task of the definition -/
+theorem reqsN_toSpec (w : WfG) (tg n q : String) (h : q ∈ Mistral.Reverse.reqsN (toSpec w tg) n) :
+    ∃ t ∈ w.tasks, t.name = n ∧ q ∈ taskRequires w t := by
+  unfold Mistral.Reverse.reqsN at h
+  split at h
+  · rename_i t' ht'
+    rcases Mistral.Reverse.findTaskSpec_some _ n t' ht' with ⟨hm, hn⟩
+    rcases List.mem_map.mp hm with ⟨t, ht, rfl⟩
+    exact ⟨t, ht, hn, h⟩
+  · simp at h
+
+theorem isTask_toSpec (w : WfG) (tg q : String) : Mistral.Reverse.isTask (toSpec w tg) q = taskExists w q := by
+  unfold Mistral.Reverse.isTask taskExists toSpec
+  rw [List.any_map]; rfl
+
+theorem wellFormedN_toSpec (w : WfG) (tg : String)
+    (hq : ∀ t ∈ w.tasks, ∀ n ∈ taskRequires w t, taskExists w n = true) :
+    Mistral.Reverse.WellFormedN (toSpec w tg) := by
+  intro n q h
+  rcases reqsN_toSpec w tg n q h with ⟨t, ht, _, hqt⟩
+  rw [isTask_toSpec]; exact hq t ht q hqt
 
 /-- "validation either accepts it …": an accepted workflow graph is well formed — every transition
     target exists, every join has enough inbound tasks, a start task exists, every requirement
-    exists; and conversely nothing well formed is rejected by the graph checks. -/
+    exists and (reverse) `requires` has no cycle; and conversely nothing well formed is rejected by
+    the graph checks. -/
 theorem accept_iff_wellformed (w : WfG) : validateGraph w = .ok () ↔ WellFormed w := by
   constructor
   · intro h
@@ -213,9 +241,13 @@ theorem accept_iff_wellformed (w : WfG) : validateGraph w = .ok () ↔ WellForme
       split at h
       · cases h
       · rename_i hfb
-        refine ⟨by simp [hr], by simp [hr], by simp [hr], fun _ t ht n hn => ?_⟩
-        have := firstBad_none _ _ hfb n (List.mem_flatMap.mpr ⟨t, ht, hn⟩)
-        simpa [linkOk] using this
+        split at h
+        · rename_i hac
+          refine ⟨by simp [hr], by simp [hr], by simp [hr], fun _ t ht n hn => ?_,
+            fun _ => (Mistral.Reverse.requiresAcyclic_sound _ hac).2⟩
+          have := firstBad_none _ _ hfb n (List.mem_flatMap.mpr ⟨t, ht, hn⟩)
+          simpa [linkOk] using this
+        · cases h
     · have hr' : w.reverse = false := by simpa using hr
       simp only [hr', Bool.false_eq_true, if_false] at h
       split at h
@@ -227,7 +259,8 @@ theorem accept_iff_wellformed (w : WfG) : validateGraph w = .ok () ↔ WellForme
           split at h
           · cases h
           · rename_i hfind
-            refine ⟨fun _ hs => by simp [hs] at hst, fun _ t ht n hn => ?_, fun _ t ht => ?_, by simp [hr']⟩
+            refine ⟨fun _ hs => by simp [hs] at hst, fun _ t ht n hn => ?_, fun _ t ht => ?_, by simp [hr'],
+              by simp [hr']⟩
             · have := firstBad_none _ _ hfb n (List.mem_flatMap.mpr ⟨t, ht, hn⟩)
               simp only [linkOk, Bool.or_eq_true, Bool.true_and] at this
               rcases this with h1 | h2
@@ -238,7 +271,7 @@ theorem accept_iff_wellformed (w : WfG) : validateGraph w = .ok () ↔ WellForme
               unfold joinOk at this
               unfold JoinHasInbound
               split <;> simp_all
-  · intro ⟨hs, ht, hj, hq⟩
+  · intro ⟨hs, ht, hj, hq, hac⟩
     unfold validateGraph
     by_cases hr : w.reverse = true
     · simp only [hr, if_true]
@@ -247,7 +280,9 @@ theorem accept_iff_wellformed (w : WfG) : validateGraph w = .ok () ↔ WellForme
         intro n hn
         obtain ⟨t, htm, hnm⟩ := List.mem_flatMap.mp hn
         simp [linkOk, hq hr t htm n hnm]
-      simp [this]
+      have hcyc : Mistral.Reverse.requiresAcyclic (toSpec w) = true :=
+        (Mistral.Reverse.requiresAcyclic_iff _).mpr ⟨wellFormedN_toSpec w "" (hq hr), hac hr⟩
+      simp [this, hcyc]
     · have hr' : w.reverse = false := by simpa using hr
       simp only [hr', Bool.false_eq_true, if_false]
       have h1 : (startTasks w).isEmpty = false := by
@@ -274,6 +309,67 @@ theorem accept_iff_wellformed (w : WfG) : validateGraph w = .ok () ↔ WellForme
 /-- the direction the engine relies on. -/
 theorem accept_implies_wellformed (w : WfG) (h : validateGraph w = .ok ()) : WellFormed w :=
   (accept_iff_wellformed w).mp h
+
+/-! ### "accepted definitions are … runnable": reverse workflows -/
+
+/-- An accepted reverse definition started on ANY existing target has a needed set (the target and
+    what it transitively requires, `Mistral.Props.C04Rev.needed_iff_reach`) in which no task is blocked
+    for ever: whatever tasks have succeeded so far, as long as some needed task has not, there is a
+    needed task that has not succeeded and whose requirements — all needed themselves — all have: it
+    can be started.  (False before repo fix fd108744: with `a requires b, b requires a` nothing ever
+    is; corpus/C04/reverse-cyclic.json.) -/
+theorem accepted_reverse_never_blocked (w : WfG) (hr : w.reverse = true) (h : validateGraph w = .ok ())
+    (tg : String) (ht : taskExists w tg = true) :
+    ∃ nd, Mistral.Reverse.needed (toSpec w tg) = some nd ∧ tg ∈ nd ∧
+      ∀ succeeded : List String, (∃ n ∈ nd, n ∉ succeeded) →
+        ∃ n ∈ nd, n ∉ succeeded ∧ ∀ q ∈ Mistral.Reverse.reqsN (toSpec w tg) n, q ∈ nd ∧ q ∈ succeeded := by
+  have hwf := accept_implies_wellformed w h
+  have hnd : ∃ nd, Mistral.Reverse.needed (toSpec w tg) = some nd := by
+    unfold Mistral.Reverse.needed
+    have : Mistral.Reverse.isTask (toSpec w tg) (toSpec w tg).target = true := by
+      rw [isTask_toSpec]; exact ht
+    rw [this]; exact ⟨_, rfl⟩
+  rcases hnd with ⟨nd, hnd⟩
+  refine ⟨nd, hnd, Mistral.Reverse.target_mem_needed _ nd hnd, ?_⟩
+  intro succeeded hex
+  exact Mistral.Reverse.needed_never_blocked (toSpec w tg) nd hnd
+    (wellFormedN_toSpec w tg (hwf.requires hr)) (hwf.acyclic hr) succeeded hex
+
+/-- … and at the level of runs (model `Mistral.Reverse`, every event history without operator
+    commands): once nothing is pending, a started run of an accepted reverse definition is ERROR with
+    a failed task or SUCCESS with its target succeeded; it is never left RUNNING. -/
+theorem accepted_reverse_run_finishes (w : WfG) (hr : w.reverse = true) (h : validateGraph w = .ok ())
+    (tg : String) (ht : taskExists w tg = true) (evs : List Mistral.Reverse.Event)
+    (hops : ∀ e ∈ evs, Mistral.Reverse.NoOp e)
+    (hq : (Mistral.Reverse.run (toSpec w tg) (.start :: evs)).pending = []) :
+    ((Mistral.Reverse.run (toSpec w tg) (.start :: evs)).wf = .ERROR ∧
+      ∃ r ∈ (Mistral.Reverse.run (toSpec w tg) (.start :: evs)).tasks, r.state = .ERROR) ∨
+    ((Mistral.Reverse.run (toSpec w tg) (.start :: evs)).wf = .SUCCESS ∧
+      ∃ r ∈ (Mistral.Reverse.run (toSpec w tg) (.start :: evs)).tasks, r.name = tg ∧ r.state = .SUCCESS) := by
+  have hwf := accept_implies_wellformed w h
+  have hst := Mistral.Reverse.started_after_start (toSpec w tg) evs (by rw [isTask_toSpec]; exact ht)
+  rcases Mistral.Props.C04Rev.quiescent_outcome_core (toSpec w tg) (.start :: evs)
+      (by intro e he; rcases List.mem_cons.mp he with rfl | he
+          · trivial
+          · exact hops e he)
+      (wellFormedN_toSpec w tg (hwf.requires hr)) (hwf.acyclic hr) hq hst with h1 | ⟨h1, nd, hnd, h2⟩
+  · exact Or.inl h1
+  · exact Or.inr ⟨h1, h2 tg (Mistral.Reverse.target_mem_needed _ nd hnd)⟩
+
+/-- non-vacuity: a diamond with task-defaults requires is accepted and runnable; cycles (direct,
+    through task-defaults) are rejected, a self-requirement is not a cycle. -/
+def gRev : WfG :=
+  { reverse := true, defaultRequires := ["a"],
+    tasks := [ { name := "d", requires := ["b", "c"] }, { name := "b" }, { name := "c", requires := ["a"] },
+               { name := "a" }, { name := "u", requires := ["u"] } ] }
+
+example : validateGraph gRev = .ok () ∧ taskExists gRev "d" = true ∧
+    Mistral.Reverse.needed (toSpec gRev "d") = some ["d", "b", "c", "a"] := by decide
+example : validateGraph { reverse := true, tasks := [{ name := "a", requires := ["b"] }, { name := "b", requires := ["a"] }] }
+    = .error .requiresCycle := by decide
+example : validateGraph { reverse := true, defaultRequires := ["a"], tasks := [{ name := "a", requires := ["b"] }, { name := "b" }] }
+    = .error .requiresCycle := by decide
+example : validateGraph { reverse := true, tasks := [{ name := "a", requires := ["a"] }] } = .ok () := by decide
 
 /-- a start task is a task no task (including itself) has a transition to. -/
 theorem start_task_iff (w : WfG) (t : TaskG) :
